@@ -1,5 +1,6 @@
 import Cirbo.Proofs.Rewrite
 import Cirbo.Proofs.Rename
+import Cirbo.Proofs.RenameTotal
 import Cirbo.Proofs.ReplaceSem
 /-!
 # C19 — Local rewrites keep or specialise the function exactly as documented
@@ -10,9 +11,11 @@ import Cirbo.Proofs.ReplaceSem
 -- OBLIGATION: c19_rename_references_follow
 -- OBLIGATION: c19_rename_keeps_function
 -- OBLIGATION: c19_rename_keeps_invariant
+-- OBLIGATION: c19_rename_returns
+-- OBLIGATION: c19_rename_errors
 -- OBLIGATION: c19_replace_subcircuit_wellformed
 -- OBLIGATION: c19_replace_subcircuit_keeps_function
--- PARTIAL: replace_subcircuit: 'keeps the truth table and the circuit well formed whenever it returns' is proved (c19_replace_subcircuit_wellformed for ANY replacement; c19_replace_subcircuit_keeps_function for a replacement that agrees with the slice on every valuation of the circuit, under the side condition that no slice output is a circuit INPUT — without it the call can return a circuit with fewer inputs). Which errors it raises otherwise ('or raises one of the documented errors') is established by the correspondence run only: the model returns the error names the code raises, compared on every generated call.
+-- PARTIAL: rename_gate is total: on a well-formed circuit it returns exactly when the old label is a gate and the new one is not, and otherwise raises CircuitGateIsAbsentError / CircuitGateAlreadyExistsError for exactly that reason (c19_rename_returns, c19_rename_errors). replace_subcircuit: 'keeps the truth table and the circuit well formed whenever it returns' is proved (c19_replace_subcircuit_wellformed for ANY replacement; c19_replace_subcircuit_keeps_function for a replacement that agrees with the slice on every valuation of the circuit, under the side condition that no slice output is a circuit INPUT — without it the call can return a circuit with fewer inputs). Which errors it raises otherwise ('or raises one of the documented errors') is established by the correspondence run only: the model returns the error names the code raises, compared on every generated call.
 -/
 namespace Cirbo
 open Circuit
@@ -63,6 +66,17 @@ theorem c19_rename_keeps_function {c c' : Circuit} {old new : Label} (hw : WFS c
 /-- and the result is well formed again (operands, outputs, users index, inputs, acyclicity, blocks) -/
 theorem c19_rename_keeps_invariant {c c' : Circuit} {old new : Label} (hw : WFS c)
     (h : c.renameGate old new = .ok c') : WFS c' := renameGate_wfs hw h
+
+/-- **`rename_gate` returns** on a well-formed circuit whenever the old label is a gate and the new one is not:
+the bookkeeping of the users index (one entry renamed per occurrence of the gate among an operand's users)
+never runs dry — the index lists the gate exactly as often as the operand occurs -/
+theorem c19_rename_returns {c : Circuit} {old new : Label} (hw : WFS c) (hold : old ∈ c.labels) (hnew : new ∉ c.labels) :
+    ∃ c', c.renameGate old new = .ok c' := renameGate_total hw hold hnew
+
+/-- and when it does not return, it raised one of its two documented errors for the documented reason -/
+theorem c19_rename_errors {c : Circuit} {old new : Label} (hw : WFS c) {e : String} (h : c.renameGate old new = .error e) :
+    (old ∉ c.labels ∧ e = "CircuitGateIsAbsentError") ∨
+    (old ∈ c.labels ∧ new ∈ c.labels ∧ e = "CircuitGateAlreadyExistsError") := renameGate_error hw h
 
 /-- **`replace_subcircuit` leaves the circuit well formed** whenever it returns: for a well-formed
 circuit and replacement and mappings with distinct keys (Python dicts), after the renames, the
@@ -123,6 +137,8 @@ example : ((Circuit.replaceSubcircuit
 #print axioms c19_rename_references_follow
 #print axioms c19_rename_keeps_function
 #print axioms c19_rename_keeps_invariant
+#print axioms c19_rename_returns
+#print axioms c19_rename_errors
 #print axioms c19_replace_subcircuit_wellformed
 #print axioms c19_replace_subcircuit_keeps_function
 
